@@ -20,6 +20,13 @@ type VerifConn struct {
 	}
 }
 
+// NewVerifConnApp is NewVerifConn for a connection whose user token carries the given app key
+// (HandleConnect reads it from the HTTP request of a live connection).
+func NewVerifConnApp(rh *RealtimeHandler, clientID, appKey string) *VerifConn {
+	rh.appKey = appKey
+	return NewVerifConn(rh, clientID)
+}
+
 func NewVerifConn(rh *RealtimeHandler, clientID string) *VerifConn {
 	s := hwebsocket.NewScheduler()
 	rh.clientID = clientID
